@@ -58,6 +58,21 @@ def date_ordinal(s):
     return d.toordinal()
 
 
+def date_pair(x):
+    """Date value (text 'YYYY-MM-DD[( |T)HH:MM:SS[.ffffff]]', date or datetime) -> [day ordinal, second of day]"""
+    if isinstance(x, datetime.datetime):
+        return [x.date().toordinal(), x.hour * 3600 + x.minute * 60 + x.second]
+    if isinstance(x, datetime.date):
+        return [x.toordinal(), 0]
+    s = str(x).strip()
+    d = datetime.date.fromisoformat(s[:10])
+    sec = 0
+    if len(s) > 10:
+        hh, mm, ss = s[11:19].split(':')
+        sec = int(hh) * 3600 + int(mm) * 60 + int(ss)
+    return [d.toordinal(), sec]
+
+
 def enc(x, t):
     """Engine value -> tagged value according to component type name t (ill-typed values -> tag 13)."""
     try:
@@ -82,8 +97,7 @@ def _enc(x, t):
     if t == 'String':
         return [4, [ord(c) for c in str(x)]]
     if t == 'Date':
-        s = str(x)
-        return [5, date_ordinal(s)] if len(s.strip()) <= 10 else [13, s.strip()]
+        return [5, date_pair(x)]
     # other types are carried as opaque text (tag 13) unless a property-specific codec is used
     return [13, str(x)]
 
@@ -102,7 +116,10 @@ def dec(v):
     if tag == 4:
         return ''.join(chr(c) for c in p)
     if tag == 5:
-        return datetime.date.fromordinal(p).isoformat()
+        if isinstance(p, int):
+            return datetime.date.fromordinal(p).isoformat()
+        d = datetime.date.fromordinal(p[0]).isoformat()
+        return d if not p[1] else '%s %02d:%02d:%02d' % (d, p[1] // 3600, (p[1] // 60) % 60, p[1] % 60)
     if tag == 13:
         return p
     raise ValueError('cannot decode %r' % (v,))
